@@ -816,7 +816,7 @@ func (x *Exec) checkInvariants(st *State, fr *Frame, lc *LoopContract, n int, ki
 	for _, c := range lc.Invariants {
 		g, err := env.EvalBool(c.Expr)
 		if err != nil {
-			x.errorf("%s:%d: %v", c.File, c.Line, err)
+			st.unbound(kind, fmt.Sprintf("L%d:%s", n, c.Label), propsOr(c.Props, x.safetyProps()), hdr.Instrs[0].Pos(), c.Expr, err)
 			continue
 		}
 		st2 := st // obligations share the path condition
@@ -844,8 +844,7 @@ func (x *Exec) assumeInvariants(st *State, fr *Frame, lc *LoopContract, n int, h
 	for _, c := range lc.Invariants {
 		g, err := env.EvalBool(c.Expr)
 		if err != nil {
-			x.errorf("%s:%d: %v", c.File, c.Line, err)
-			continue
+			continue // reported by checkInvariants as an unbound clause
 		}
 		st.Assume(g)
 	}
